@@ -956,7 +956,7 @@ def gmfx_em(x, var, niter, constraint, m_fixed):
         vi = [s * v / (s + v) for s in var]
         if not constraint:
             m = sum(mi) / n
-        v = sum(b + a * a for a, b in zip(mi, vi)) / n - m * m
+        v = sum(b + (a - m) ** 2 for a, b in zip(mi, vi)) / n      # M step: posterior second moment about the (new / fixed) mean
     return m, v
 
 
@@ -1007,14 +1007,16 @@ def sec_mfx_stats(ck, L):
             metas.append(("gmfx", niter, x.tolist(), var.tolist(), base, got))
         got = osm_eval(L, 12, x, var, base, niter)
         ck.count(("gmfx", "student", it), bucket="mfx:student_mfx")
+        ref = None
         if mu - B_ == 0:
             ref = 0.0
         else:
             m0, v0 = gmfx_em(X_, V_, niter, True, B_)
-            lr = max(0.0, -2.0 * (gmfx_nll(X_, V_, mu, v) - gmfx_nll(X_, V_, m0, v0)))
-            ref = math.copysign(math.sqrt(lr), float(mu - B_))
-        if abs(got - ref) > 1e-9 * max(1.0, abs(ref)):
-            ck.fail("onesample_mfx/student_mfx-not-likelihood-ratio/base!=0" if base != 0 else "onesample_mfx/student_mfx-not-likelihood-ratio",
+            if all(sv + v > 0 and sv + v0 > 0 for sv in V_):     # log defined (zero first-level variance + zero group variance excluded)
+                lr = max(0.0, -2.0 * (gmfx_nll(X_, V_, mu, v) - gmfx_nll(X_, V_, m0, v0)))
+                ref = math.copysign(math.sqrt(lr), float(mu - B_))
+        if ref is not None and abs(got - ref) > 1e-9 * max(1.0, abs(ref)):
+            ck.fail("onesample_mfx/student_mfx-baseline-not-honoured" if base != 0 else "onesample_mfx/student_mfx-not-likelihood-ratio",
                     "student_mfx(niter=%d, base=%r) = %r; sign(mu-base) sqrt(2 (nll(H0: mean=base) - nll)) = %r" % (niter, base, got, ref),
                     {"x": x.tolist(), "var": var.tolist(), "base": base, "niter": niter, "out": got, "expected": ref})
         # antisymmetry of every MFX statistic under (x, base) -> (-x, -base)
@@ -1027,6 +1029,17 @@ def sec_mfx_stats(ck, L):
             if not (abs(t + tf) <= 1e-9 * max(1.0, abs(t))):
                 ck.fail("onesample_mfx/%s-not-antisymmetric" % name, "%s(-x, var, -base) = %r but %s(x, var, base) = %r (niter=%d, base=%r)" % (name, tf, name, t, niter, base),
                         {"stat": name, "x": x.tolist(), "var": var.tolist(), "base": base, "niter": niter, "flipped": tf, "plain": t})
+        # baseline: every statistic is a function of (x - base, var): shifting data and baseline together changes nothing
+        c = float(rng.integers(1, 5)) / 2
+        for name, flag in list(OS_MFX.items()) + list(OS_RFX.items()):
+            mf = name in OS_MFX
+            t = osm_eval(L, flag, x, var, base, niter) if mf else os_eval(L, flag, x, base)
+            ts = osm_eval(L, flag, x + c, var, base + c, niter) if mf else os_eval(L, flag, x + c, base + c)
+            ck.count(("shift", name, it), bucket="mfx:baseline-shift" if mf else "onesample:baseline-shift")
+            if not (abs(t - ts) <= 1e-9 * max(1.0, abs(t)) or (t != t and ts != ts) or t == ts):
+                ck.fail("%s/%s-baseline-not-honoured" % ("onesample_mfx" if mf else "onesample", name),
+                        "%s(x + %r, base + %r) = %r but %s(x, base=%r) = %r%s" % (name, c, c, ts, name, base, t, (" (niter=%d)" % niter) if mf else ""),
+                        {"stat": name, "x": x.tolist(), "var": var.tolist() if mf else None, "base": base, "shift": c, "niter": niter, "shifted": ts, "plain": t})
         # empirical MFX: statistics of the fitted mixture (w, z) returned by fff_onesample_stat_mfx_pdf_fit
         w, z = osm_pdf_fit(L, 10, x, var, niter)
         ck.count(("emfx", it), bucket="mfx:empirical")
@@ -1046,7 +1059,7 @@ def sec_mfx_stats(ck, L):
             if abs(got - ref) > 1e-10 * max(1.0, abs(ref)):
                 sig = "onesample_mfx/%s-not-definition" % name
                 if name == "median_mfx" and base != 0 and abs(got - (ref + base)) <= 1e-10 * max(1.0, abs(ref)):
-                    sig = "onesample_mfx/median_mfx-ignores-base"
+                    sig = "onesample_mfx/median_mfx-baseline-not-honoured"
                 ck.fail(sig, "%s(niter=%d, base=%r) = %r; from the fitted mixture (w, z) of pdf_fit the definition gives %r" % (name, niter, base, got, ref),
                         {"stat": name, "x": x.tolist(), "var": var.tolist(), "base": base, "niter": niter, "w": w.tolist(), "z": z.tolist(), "out": got, "expected": ref})
     run_terms(ck, "gmfx", terms, metas, lambda t: "gmfx_mean %s %s %s" % (cnat(t[1]), cql(t[2]), cql(t[3])), hdr=HDR_MFX, shard=10)
